@@ -212,6 +212,30 @@ func PropC17Race(c *vs.Case, f Factory, kind string) error {
 			if m := panicMsg.Load(); m != nil {
 				return "", 0, vs.Violf("C17/panic-under-concurrency", "a sync panicked while %d workers ran: %v", w, m)
 			}
+			if customize {
+				// the related objects never change in this scenario: every sync hook call is shown both of them,
+				// however many workers asked for the related informers at the same time
+				for _, h := range env.W.Hooks.Take() {
+					if h.URL == CustomizeURL || h.Response.Code != 200 || h.Request == nil {
+						continue
+					}
+					rel, _ := h.Request["related"].(map[string]any)
+					n := 0
+					for _, g := range rel {
+						gm, _ := g.(map[string]any)
+						n += len(gm)
+					}
+					want := 0
+					for _, o := range append(env.W.Sim.ListAll("gadgets"), env.W.Sim.ListAll("cwidgets")...) {
+						if relatedSelected(env, parents[0], env.Scn.Prog.Related, o) {
+							want++
+						}
+					}
+					if n != want {
+						return "", 0, vs.Violf("C17/related-incomplete-under-concurrency", "with %d workers a hook call was shown %d related object(s) instead of the %d its rules select: %v", w, n, want, rel)
+					}
+				}
+			}
 		}
 		// settle sequentially so that both runs end at their fixpoint
 		for i := 0; i < 6; i++ {
